@@ -423,6 +423,92 @@ def enum_plans(n, bound, shard, nshards, choices=(0, 1)):
 _WARM = []
 
 
+
+# ------------------------------------------------------------------ domain 3: an abandoned body that owns a helper thread
+def monitored_case(case):
+  """case = {'monitored': 1, 't': float, 'same_name': bool, 'pos': 'main'|'alone'}: the phase under test is wrapped by
+  monitors.monitors() and never returns; its monitor thread therefore outlives the phase.  The phase that runs next is
+  monitored too (same or different measurement name)."""
+  def fn(s):
+    htf = ohtf.reset_case(cancel_timeout_s=0.5, plug_teardown_timeout_s=0.5)
+    vmode.quiet_logging()
+    from openhtf.core import monitors  # pylint: disable=g-import-not-at-top
+    from openhtf.util import threads  # pylint: disable=g-import-not-at-top
+    counts = {'a': 0, 'b': 0}
+
+    def mon_a(test):
+      counts['a'] += 1
+      return 1000 + counts['a']
+
+    def mon_b(test):
+      counts['b'] += 1
+      return 2000 + counts['b']
+
+    @htf.PhaseOptions(timeout_s=case['t'])
+    @monitors.monitors('temp', mon_a, poll_interval_ms=100)
+    def put(test):
+      while True:          # blocked in a call the kill does not get through to
+        try:
+          s.sleep(1e7)
+        except threads.ThreadTerminationError:
+          pass
+
+    @htf.PhaseOptions(timeout_s=30)
+    @monitors.monitors('temp' if case['same_name'] else 'temp2', mon_b, poll_interval_ms=100)
+    def nxt(test):
+      s.sleep(1.05)
+
+    nodes = [htf.PhaseGroup(main=[put], teardown=[nxt])] if case['pos'] == 'main' else [put]
+    test = htf.Test(*nodes)
+    if case['pos'] != 'main':
+      # after a timeout nothing but teardown runs; a second Test on the same thread plays "the phase that runs next"
+      pass
+    got = []
+    test.add_output_callbacks(got.append)
+    test.execute()
+    rec = got[0]
+    out = {'outcome': rec.outcome.name, 'phases': []}
+    for p in rec.phases:
+      ms = {}
+      for name, m in p.measurements.items():
+        ms[name] = [r_[-1] for r_ in m.measured_value.value] if m.measured_value.is_value_set else []
+      out['phases'].append((p.name, p.outcome.name, ms))
+    return out
+
+  return fn
+
+
+def check_monitored(case):
+  r = CaseResult()
+  vmode.setup()
+  from openhtf.core import monitors  # pylint: disable=g-import-not-at-top
+  V.install_proxies([monitors])
+  plan = {int(k): v for k, v in (case.get('plan') or {}).items()}
+  s, res, exc = vmode.run(monitored_case(case), plan=plan, time_limit=1e6, watchdog_s=20.0, max_steps=120000)
+  r.nontrivial = True
+  r.classes = ['monitored-abandoned', 'same-name:%s' % case['same_name'], 'pos:' + case['pos']]
+  if s.failure is not None:
+    if s.failure[0] in ('deadlock', 'steplimit'):
+      r.bad('C12/monitored/hang', '%r: %s' % (case, s.failure[1][:400]))
+      return r, s
+    raise RuntimeError('scheduler failure: %r' % (s.failure,))
+  if exc is not None:
+    r.bad('C12/monitored/execute-raised/%s' % type(exc).__name__, '%r: %r' % (case, exc))
+    return r, s
+  if res['outcome'] != 'TIMEOUT':
+    r.bad('C12/timeout/not-reported', '%r: outcome %s' % (case, res['outcome']))
+  for name, outcome, ms in res['phases']:
+    if name == 'nxt':
+      for mname, vals in ms.items():
+        foreign = [v for v in vals if v < 2000]
+        if foreign:
+          r.bad('C12/timeout/late-work-leaked', '%r: the record of the following phase holds %d samples of the abandoned phase\'s monitor in %s (%r ...), next to %d of its own' % (
+              case, len(foreign), mname, foreign[:3], len(vals) - len(foreign)))
+      if outcome != 'PASS':
+        r.bad('C12/timeout/late-work-leaked', '%r: the following phase ended %s: %r' % (case, outcome, ms))
+  return r, s
+
+
 def setup_lines():
   vmode.setup()
   V.monitor_lines(vmode.executor_code_objects())
@@ -439,6 +525,7 @@ def plan(tier, seed):
   nsh = 16
   for sh in range(nsh):
     jobs.append({'kind': 'grid', 'name': 'grid%d' % sh, 'shard': sh, 'nshards': nsh, 'sweep_every': 12 if q else 2, 'seed': seed})
+  jobs.append({'kind': 'monitored', 'name': 'monitored'})
   for kb in (True, False):
     for kills in (1, 2):
       if kb and kills == 2:
@@ -463,6 +550,14 @@ def run_job(job, acct):
     for sig, detail in r.violations:
       (acct.known if sig in known else acct.violation)(sig, case, detail)
 
+  if job['kind'] == 'monitored':
+    for t in (0.5, 3.0):
+      for same in (True, False):
+        case = {'monitored': 1, 't': t, 'same_name': same, 'pos': 'main'}
+        r, _ = check_monitored(case)
+        record(case, r)
+    acct.exhaustive_parts.append('abandoned monitored phase followed by a monitored teardown phase: timeout x same/different measurement name')
+    return
   if job['kind'] == 'grid':
     for i, case in enumerate(timeout_grid()):
       if i % job['nshards'] != job['shard']:
@@ -546,6 +641,8 @@ def kill_stall_variants(case, s0):
 
 def replay(case):
   setup_lines()
+  if case.get('monitored'):
+    return check_monitored(case)[0].violations
   if 'kill_before_start' in case:
     return check_kill(case)[0].violations
   return check_timeout(case)[0].violations
